@@ -656,6 +656,15 @@ def run(ctx: Any, prog: Program) -> None:
             cond_ = ' and '.join(U(g.test)[:40] for g in guards_)
         ctx.check('C17.N4', ok_, ins, r_, f'fixup_name hands the name back unchanged when `{cond_[:70]}`: only blank, @global and !special names (and the NONE style) are exempt from the naming style - a local name that '
                   'happens to carry the instance name already ("lift-door" inside "lift") then collides with the renamed "door"', func='Instance.fixup_name', text=f'unchanged name only for exempt names: `{cond_[:40]}`')
+    # ---- N3 (overrides): a `pitch` / `yaw` keyvalue replaces that component of the angles ------------------------------------------------------
+    # Hammer's separate pitch and yaw keys override the component in `angles`; collapse_one assigns them (`angles.pitch = ...`) before rotating.
+    # An augmented assignment (`angles.yaw += value`) adds the override to the value it is meant to replace.
+    ov_ = [a for a in walk_no_nested(co) if isinstance(a, (ast.Assign, ast.AugAssign)) for t in (a.targets if isinstance(a, ast.Assign) else [a.target])
+           if isinstance(t, ast.Attribute) and t.attr in ('pitch', 'yaw') and isinstance(t.value, ast.Name)]
+    ctx.shape('C17.N3', len(ov_) >= 2, ins, co, f'{len(ov_)} stores into .pitch / .yaw of the entity angles found in collapse_one (one each confirmed by hand)', func='collapse_one', text='pitch / yaw overrides')
+    for a in ov_:
+        ctx.check('C17.N3', isinstance(a, ast.Assign), ins, a, f'collapse_one applies the override with `{U(a)[:50]}`: the separate key replaces that component of `angles`, an augmented assignment adds it on top - an entity '
+                  'with angles "0 35 0" and yaw "40" is rotated from yaw 75 instead of 40', func='collapse_one', text=f'`{U(a)[:30]}` replaces the component')
     # ---- N7: keyvalues are fixed up only after every entity (and so every face) has been copied -------------------------------------------
     # side lists (`sides`) are remapped through inst.face_ids, which the copies fill: the collection the fix-up loop walks has to be complete
     # before the loop starts.  A generator that copies on demand interleaves the two, and an overlay placed before the brush it refers to
@@ -982,6 +991,7 @@ def n6_substitute(ctx: Any, vm: Any) -> None:
 
 
 MUTANTS = [
+    {'id': 'yaw_override_added', 'file': 'instancing.py', 'find': "            angles.yaw = srctools.conv_float(inst.fixup.substitute(new_ent['yaw'], ''))", 'replace': "            angles.yaw += srctools.conv_float(inst.fixup.substitute(new_ent['yaw'], ''))", 'expect': 'C17.N3', 'note': 'round 13'},
     {'id': 'entity_copy_side_mapping_by_truth', 'file': 'vmf.py', 'find': "        new_solids = [\n            solid.copy(vmf_file=vmf_file, side_mapping=side_mapping)", 'replace': "        side_mapping = side_mapping or EmptyMapping\n        new_solids = [\n            solid.copy(vmf_file=vmf_file, side_mapping=side_mapping)", 'expect': 'C17.N12', 'note': 'round 12'},
     {'id': 'fixup_name_skips_prefixed_names', 'file': 'instancing.py', 'find': "            return f'{self.name}-{name}'", 'replace': "            return name if name.startswith(self.name + '-') else f'{self.name}-{name}'", 'expect': 'C17.N4', 'note': 'round 12'},
     {'id': 'nested_fixup_negative_numbers_renamed', 'file': 'instancing.py', 'find': "            if value and value[0] not in '@!-.0123456789':", 'replace': "            if value and value[0] not in '@!0123456789':", 'expect': 'C17.N11', 'note': 'round 11'},
